@@ -105,6 +105,19 @@ def run_call_model(ctx, res, seed):
             if not ds_equal(ref, got):
                 res.failures.append({'kind': 'thread-pool-result-differs-from-serial', 'input': {**info, 'model': mname, 'workers': workers}})
             res.hit('thread-pool')
+        # a LARGE batch on small pools (many samples per worker: any grouping of samples into shared tasks shows here)
+        NL = 26
+        xl = {'x0': np.array([rng.random() for _ in range(NL)]), 'x1': np.array([rng.uniform(-1, 1) for _ in range(NL)])}
+        xl['x0'][3], xl['x0'][17] = 0.9, 0.95       # the failing model raises on these two samples
+        refl = comp.call_model(dict(xl))
+        for workers in (1, 2):
+            with ThreadPoolExecutor(max_workers=workers) as ex:
+                gotl = comp.call_model(dict(xl), executor=ex, delay_scale=0.0)
+            if not ds_equal(refl, gotl):
+                res.failures.append({'kind': 'thread-pool-result-differs-from-serial',
+                                     'input': {**info, 'model': mname, 'workers': workers, 'batch': NL},
+                                     'errors': [sorted(gotl.get('errors', {})), sorted(refl.get('errors', {}))]})
+            res.hit('thread-pool-large-batch')
         if mname == 'packed':
             with ProcessPoolExecutor(max_workers=3) as ex:
                 got = comp.call_model(dict(x), executor=ex, delay_scale=0.005)
